@@ -142,7 +142,56 @@ func retOf(fset *token.FileSet, e ast.Expr) string {
 	return "(other " + show(fset, e) + ")"
 }
 
+// guardOf: `if s[i].a != s[j].a { return e }` -> (a, rendering of e)
+func guardOf(fset *token.FileSet, st ast.Stmt) (string, string, bool) {
+	ifs, ok := st.(*ast.IfStmt)
+	if !ok || ifs.Init != nil || ifs.Else != nil || len(ifs.Body.List) != 1 {
+		return "", "", false
+	}
+	r, ok := ifs.Body.List[0].(*ast.ReturnStmt)
+	if !ok || len(r.Results) != 1 {
+		return "", "", false
+	}
+	c, ok := unparen(ifs.Cond).(*ast.BinaryExpr)
+	if !ok || c.Op != token.NEQ {
+		return "", "", false
+	}
+	ix, ax, okx := accOf(fset, c.X)
+	iy, ay, oky := accOf(fset, c.Y)
+	if !okx || !oky || ix != "i" || iy != "j" || ax != ay {
+		return "", "", false
+	}
+	return ax, retOf(fset, r.Results[0]), true
+}
+
+// guardsOf: a body of guard clauses `if a != b { return e_a }; …; return e_last` is rewritten
+// into the nested form, exactly as `GSort.Cmp.ofGuards` does (sound: Properties/C08.evalGuards_eq).
+func guardsOf(fset *token.FileSet, stmts []ast.Stmt) (string, bool) {
+	if len(stmts) < 2 {
+		return "", false
+	}
+	last, ok := stmts[len(stmts)-1].(*ast.ReturnStmt)
+	if !ok || len(last.Results) != 1 {
+		return "", false
+	}
+	out := "(ret " + retOf(fset, last.Results[0]) + ")"
+	for k := len(stmts) - 2; k >= 0; k-- {
+		acc, ret, ok := guardOf(fset, stmts[k])
+		if !ok {
+			return "", false
+		}
+		if ret == "(j "+acc+")" {
+			ret = "(noti-and-j " + acc + ")"
+		}
+		out = "(ifeq " + acc + " " + out + " " + ret + ")"
+	}
+	return out, true
+}
+
 func cmpOf(fset *token.FileSet, stmts []ast.Stmt) string {
+	if g, ok := guardsOf(fset, stmts); ok {
+		return g
+	}
 	switch len(stmts) {
 	case 1:
 		if r, ok := stmts[0].(*ast.ReturnStmt); ok && len(r.Results) == 1 {
